@@ -31,6 +31,8 @@ def V(site, clause, msg, triggers=(), **detail):
 
 def cases(tier, seed):
     out = []
+    for name in ('Covariance', 'ITML', 'LSML'):
+        out.append(('%s/one_feature_int_points' % name, (name, 'ONE', 'onefeature', seed)))
     for dsn in data.names(tier, small=True):
         for name in zoo.ALL:
             for pk in PRE_KINDS:
@@ -76,8 +78,53 @@ def same(a, b):
     return a.shape == b.shape and a.dtype.kind == b.dtype.kind and np.array_equal(a, b)
 
 
+def one_feature_case(name):
+    """Formed INTEGER points with exactly one feature while a preprocessor is set: they are data, not indicators."""
+    viol, sigs = [], set()
+    rs = np.random.RandomState(3)
+    col = np.unique(np.r_[rs.randint(0, 40, size=30), np.arange(0, 12)])[:, None].astype(np.int64)      # (n, 1) distinct ints
+    n = len(col)
+    table = np.round(rs.randn(60, 1) * 8) / 8                                       # what the indices WOULD address
+    calls = Counter(table)
+    kind = zoo.KIND[name]
+    if kind == 'unsup':
+        fa_int, fa_flt = (col,), (col.astype(float),)
+    elif kind == 'pairs':
+        P = np.array([[col[i], col[(i * 7 + 3) % n]] for i in range(n) if i != (i * 7 + 3) % n])
+        y = np.where(np.arange(len(P)) % 2 == 0, 1, -1)
+        fa_int, fa_flt = (P, y), (P.astype(float), y)
+    else:
+        Qd = np.array([[col[i], col[(i + 1) % n], col[(i + 5) % n], col[(i + 11) % n]] for i in range(n)])
+        fa_int, fa_flt = (Qd,), (Qd.astype(float),)
+    evals = 0
+    try:
+        e_ref = zoo.cls(name)().fit(*fa_flt)
+        e_int = zoo.cls(name)(preprocessor=calls).fit(*fa_int)
+        evals += 2
+        if calls.calls:
+            viol.append(V(name + '.fit', 'preprocessor_consulted', 'formed integer points with one feature were looked up through the '
+                          'preprocessor (%d call(s))' % calls.calls, ['one_feature']))
+        if not same(e_ref.components_, e_int.components_):
+            viol.append(V(name + '.fit', 'fitted_attribute', 'formed integer one-feature data gives another model when a preprocessor is set', ['one_feature']))
+        q = col[:7]
+        pq = np.array([[col[i], col[i + 3]] for i in range(6)])
+        for meth, a_int, a_flt in (('transform', q, q.astype(float)), ('pair_distance', pq, pq.astype(float))):
+            c0 = calls.calls
+            r_i, r_f = getattr(e_int, meth)(a_int), getattr(e_ref, meth)(a_flt)
+            evals += 2
+            sigs.add((name, 'one_feature', meth))
+            if calls.calls != c0 or not same(r_i, r_f):
+                viol.append(V(name + '.' + meth, 'output_differs', '%s on formed integer one-feature data differs from the float copy (or consulted '
+                              'the preprocessor)' % meth, ['one_feature']))
+    except Exception as e:
+        viol.append(V(name + '.fit', 'index_fit_raises', 'one-feature integer data raised %s: %s' % (type(e).__name__, str(e)[:120]), ['one_feature']))
+    return dict(evals=evals, sigs=sigs, viol=viol, sample={'estimator': name, 'case': 'formed int64 points with one feature, preprocessor set'})
+
+
 def run_case(spec):
     name, dsn, pk, seed = spec
+    if pk == 'onefeature':
+        return one_feature_case(name)
     ds = data.dataset('R', seed) if dsn == 'R' else data.dataset(dsn)
     warnings.simplefilter('ignore')
     kind = zoo.KIND[name]
